@@ -102,6 +102,9 @@ def plan_for(pid, tier):
     if pid == "C03":
         import compcheck
         common["pre"] = compcheck.dvvisit_stage
+    if pid == "C06":
+        common["models"] = [("MergeImpl", "MergeImplQ.cfg" if q else "MergeImpl.cfg", "MergeIsRebuild", ["MergeImplMut_dropsI.cfg", "MergeImplMut_noEmptyFlush.cfg"])] + \
+                           ([] if q else [("MergeImpl", "MergeImpl3.cfg", "MergeIsRebuild", [])])
     if pid == "C09":
         import compcheck
         common["pre"] = compcheck.corpus_stage
@@ -284,6 +287,18 @@ def run_life_check(pid, tier, seed, replay=None, pre=None):
             raise Inconclusive("Life model: " + "; ".join(errs[:3]))
         total_walks, walks = sample_walks(outp, plan["walks"], seed, sc, plan["walk_bias"])
         os.remove(outp)
+        extra_models = []
+        for (mmod, mcfg, minv, mmuts) in plan.get("models", []):
+            mo, mst = tlc(sc, mmod, cfg=mcfg, workers=8, timeout=3000, outname="m-%s.out" % mcfg)
+            if tlc_errors(mo):
+                raise Inconclusive("%s (%s): %s" % (mmod, mcfg, "; ".join(tlc_errors(mo)[:2])))
+            for mc in mmuts:
+                xo, _ = tlc(sc, mmod, cfg=mc, workers=4, timeout=900, outname="m-%s.out" % mc)
+                if not any(minv + " is violated" in e for e in tlc_errors(xo)):
+                    raise Inconclusive("%s: the wrong variant %s is not refuted" % (mmod, mc))
+            log("G: %s(%s): %d states, %s holds; wrong variants refuted: %s" % (mmod, mcfg, mst["distinct_states"], minv, ", ".join(mmuts) or "-"))
+            extra_models.append({"module": mmod + ".tla", "cfg": mcfg, "invariant": minv, "distinct_states": mst["distinct_states"],
+                                 "states_generated": mst["states_generated"], "refuted_variants": mmuts, "wall_s": mst["wall_s"]})
         log("G: " + module + "(%s) %d distinct states, %d edges; %d walks sampled" % (plan["life_cfg"], lst["distinct_states"], lst["states_generated"], len(walks)))
         # R
         traces = [sc.path("t-walks.ndjson")]
@@ -343,11 +358,13 @@ def run_life_check(pid, tier, seed, replay=None, pre=None):
             if "/zapx/" in r or REPO in r:
                 log("data race reported by the race detector inside the library:\n" + r[:1500])
                 confirmed.append(save_replay(pid, seed, 50 + i, {"property": pid, "key": "race/datarace", "family": "life", "report": r, "events": []}))
-        cov = {"states": lst["distinct_states"] + vst["distinct_states"], "transitions": lst["states_generated"] + vst["states_generated"],
+        cov = {"states": lst["distinct_states"] + vst["distinct_states"] + sum(m["distinct_states"] for m in extra_models),
+               "transitions": lst["states_generated"] + vst["states_generated"] + sum(m["states_generated"] for m in extra_models),
                "traces_validated_against_impl": tst["scenarios"],
                "samples": [json.loads(w) for w in walks[:2]] + samples,
                "model": {"module": module + ".tla", "cfg": plan["life_cfg"], "distinct_states": lst["distinct_states"], "edges": lst["states_generated"],
                          "invariants": plan.get("invariants", ["AllWF", "AllObsConsistent", "OpenedEqualsFile"]), "wall_s": lst["wall_s"]},
+               "operational_models": extra_models,
                "walks_emitted": total_walks, "walks_replayed": len(walks),
                "trace": tst, "trace_validation": {"module": "TraceLife.tla", "events_consumed": tst["events"], "wall_s": vst["wall_s"],
                                                   "mismatching_steps": len(mism)},
